@@ -190,6 +190,9 @@ def r4_r5(prog, rep):
     v = env.get("self.dphidy")
     want = ctx.sym("self.hy") * ctx.sym("self.Btxy") / (ctx.sym("self.Bpxy") * ctx.sym("self.Rxy"))
     rep.ob("R4", "dphidy == hy*Btxy/(Bpxy*Rxy)", isinstance(v, Rat) and (v - want).is_zero(), fg2.site(), v.show() if isinstance(v, Rat) else str(v), key="dphidy")
+    # ... and it still holds for the arrays that are written: hy, Btxy, Bpxy, Rxy keep the values dphidy was computed from
+    from .. import locsets
+    locsets.check_fresh(prog, rep, "R4", ["dphidy", "ShiftTorsion"], ["orthogonal", "non-orthogonal", "orthogonal/capBp"])
     fm = prog.unique_func_assigning(["ShiftTorsion"], MESH)
     ok = False
     for s in walk_own(fm.node):
